@@ -227,14 +227,14 @@ Qed.
    removes a coroutine object *)
 Lemma step_tr : forall o s j, Inv s ->
   tr (stof s j) (stof (fst (step o s)) j) /\
-  (stof (fst (step o s)) j = None -> stof s j <> None -> o = ODestroy j \/ o = OClose j).
+  (stof (fst (step o s)) j = None -> stof s j <> None -> o = ODestroy j \/ o = OClose j \/ o = OForget j).
 Proof.
   intros o s j I.
   assert (K : forall s', trk (stof s j) (stof s' j) ->
-              tr (stof s j) (stof s' j) /\ (stof s' j = None -> stof s j <> None -> o = ODestroy j \/ o = OClose j)).
+              tr (stof s j) (stof s' j) /\ (stof s' j = None -> stof s j <> None -> o = ODestroy j \/ o = OClose j \/ o = OForget j)).
   { intros s' (T & N). split; [exact T|]. intros A B. exfalso. apply B. apply N. exact A. }
   assert (KS : forall s', same_ctl s s' ->
-              tr (stof s j) (stof s' j) /\ (stof s' j = None -> stof s j <> None -> o = ODestroy j \/ o = OClose j)).
+              tr (stof s j) (stof s' j) /\ (stof s' j = None -> stof s j <> None -> o = ODestroy j \/ o = OClose j \/ o = OForget j)).
   { intros s' S'. apply K. rewrite (same_ctl_stof _ _ S' j). apply trk_same. }
   assert (D : forall k r s1, co_destroy k s = (r, s1) ->
               tr (stof s j) (stof s1 j) /\ (j <> k -> stof s1 j = stof s j)).
@@ -293,14 +293,14 @@ Proof.
     + destruct (Nat.eqb (mdepth s) 0); simpl; [apply K, trk_same|]. apply KS. apply same_ctl_mdepth.
   - (* destroy *)
     destruct (co_destroy k s) as [r s1] eqn:R. destruct (D k r s1 R) as (T & F).
-    assert (X : tr (stof s j) (stof s1 j) /\ (stof s1 j = None -> stof s j <> None -> ODestroy k = ODestroy j \/ ODestroy k = OClose j)).
+    assert (X : tr (stof s j) (stof s1 j) /\ (stof s1 j = None -> stof s j <> None -> ODestroy k = ODestroy j \/ ODestroy k = OClose j \/ ODestroy k = OForget j)).
     { split; [exact T|]. intros A B. destruct (Nat.eq_dec j k) as [->|Nq]; [left; reflexivity|].
       exfalso. apply B. rewrite <- (F Nq). exact A. }
     destruct r; simpl; exact X.
   - (* close *)
     destruct (co_destroy k s) as [r s1] eqn:R. destruct (D k r s1 R) as (T & F).
-    assert (X : tr (stof s j) (stof s1 j) /\ (stof s1 j = None -> stof s j <> None -> OClose k = ODestroy j \/ OClose k = OClose j)).
-    { split; [exact T|]. intros A B. destruct (Nat.eq_dec j k) as [->|Nq]; [right; reflexivity|].
+    assert (X : tr (stof s j) (stof s1 j) /\ (stof s1 j = None -> stof s j <> None -> OClose k = ODestroy j \/ OClose k = OClose j \/ OClose k = OForget j)).
+    { split; [exact T|]. intros A B. destruct (Nat.eq_dec j k) as [->|Nq]; [right; left; reflexivity|].
       exfalso. apply B. rewrite <- (F Nq). exact A. }
     destruct r; simpl; exact X.
   - simpl. apply K, trk_same.
@@ -308,11 +308,17 @@ Proof.
     pose proof (unwind_unw _ _ _ _ _ I U j) as T.
     destruct (halted s1); simpl; apply K, unw_trk; exact T.
   - simpl. apply K, trk_same.
+  - destruct (get k (cos s)) as [c|] eqn:G; simpl; [|apply K, trk_same].
+    destruct (cstate_eqb (co_st c) Suspended || cstate_eqb (co_st c) Dead) eqn:E; simpl; [|apply K, trk_same].
+    assert (Dd : mco_destroy k s = (MCO_SUCCESS, set_cos s (del k (cos s)))) by (unfold mco_destroy; rewrite G, E; reflexivity).
+    destruct (mco_destroy_tr _ _ _ _ I Dd j) as (T & F).
+    split; [exact T|]. intros A B. destruct (Nat.eq_dec j k) as [->|Nq]; [right; right; reflexivity|].
+    exfalso. apply B. rewrite <- (F Nq). exact A.
 Qed.
 
 (* Dead is absorbing: a dead coroutine stays dead until destroy removes it *)
 Lemma dead_absorbing : forall o s j, Inv s -> stof s j = Some Dead ->
-  stof (fst (step o s)) j = Some Dead \/ (stof (fst (step o s)) j = None /\ (o = ODestroy j \/ o = OClose j)).
+  stof (fst (step o s)) j = Some Dead \/ (stof (fst (step o s)) j = None /\ (o = ODestroy j \/ o = OClose j \/ o = OForget j)).
 Proof.
   intros o s j I D. destruct (step_tr o s j I) as (T & R). rewrite D in T, R.
   inversion T; subst.
